@@ -208,7 +208,7 @@ Proof.
 Qed.
 
 (* ---- Message.decode then Message.encode preserves the content (non-empty body) ---- *)
-Theorem decode_encode_preserves st0 st1 st2 m c s n b0 r0 o1 m1 st1' o2 m2 st2' :
+Theorem decode_encode_preserves st0 st1 st2 m c s (n : bytes) b0 (r0 : bytes) o1 m1 st1' o2 m2 st2' :
   contract C -> Inv C st0 -> Inv C st1 -> Inv C st2 ->
   m_raw m = Some (b0 :: r0) ->
   fst (get_content C lenient st0 m true) = GBytes c ->
@@ -222,31 +222,32 @@ Proof.
   (* the decode step *)
   assert (G1 : fst (get_content C lenient st1 m s) = GBytes c).
   { rewrite get_content_transparent by exact I1. rewrite get_content_transparent in G0 by exact I0.
-    revert G0. unfold get_content. rewrite Hraw.
-    destruct (m_ce m) as [[| b n'] |]; try (intros G0; exact G0).
-    destruct (decode C None (Some (b0 :: r0)) (b :: n') s_strict) as [r st'].
+    unfold get_content in G0 |- *. rewrite Hraw in G0 |- *. cbn beta iota in G0 |- *.
+    destruct (m_ce m) as [[| b n'] |]; try exact G0.
+    revert G0. match goal with |- context [decode ?a1 ?a2 ?a3 ?a4 ?a5] => destruct (decode a1 a2 a3 a4 a5) as [r st'] end.
     destruct r; cbn [fst]; intros G0; try discriminate G0; try exact G0.
     destruct lenient; cbn [fst] in G0; discriminate G0. }
   unfold msg_decode in D. rewrite Hraw in D.
   pose proof (inv_get_content st1 m s I1) as J1.
   destruct (get_content C lenient st1 m s) as [g st1a]. cbn [fst snd] in G1, J1. subst g.
-  set (mi := Build_msg None (m_te m) (m_cl m) (m_raw m)) in D.
+  set (mi := Build_msg None (m_te m) (m_cl m) (Some (b0 :: r0))) in D.
   assert (Si : supported (lower (coding_of mi)) = true) by reflexivity.
   destruct (set_get_roundtrip st1a mi c o1 m1 st1' K J1 Si D) as (Ho1 & Hce1 & Hte1 & (e1 & Hr1 & Hd1) & _).
   cbn in Hd1. injection Hd1 as Hd1. subst e1.
   (* the encode step *)
   unfold msg_encode in E. rewrite Hr1 in E.
-  set (me := Build_msg (Some n) (m_te m1) (m_cl m1) (Some c)) in E.
+  pose (me := Build_msg (Some n) (m_te m1) (m_cl m1) (Some c)).
   assert (Se : supported (lower (coding_of me)) = true).
   { unfold coding_of, me. cbn [m_ce]. destruct n; exact S. }
-  destruct (set_content C lenient st2 me (Some c)) as [[o m2a] st2a] eqn:E2.
+  match type of E with context [set_content ?a1 ?a2 ?a3 ?a4 ?a5] =>
+    destruct (set_content a1 a2 a3 a4 a5) as [[o m2a] st2a] eqn:E2 end.
   destruct (set_get_roundtrip st2 me c o m2a st2a K I2 Se E2) as (Ho2 & Hce2 & _ & _ & G2).
   subst o. cbn [m_ce me] in Hce2. rewrite Hce2 in E. injection E as <- <- _.
   repeat split; try assumption; try reflexivity.
 Qed.
 
 (* ---- ... and with an empty or missing body (decode is a no-op there) ---- *)
-Theorem decode_encode_preserves_empty st0 st1 st2 m g s n o1 m1 st1' o2 m2 st2' :
+Theorem decode_encode_preserves_empty st0 st1 st2 m g s (n : bytes) o1 m1 st1' o2 m2 st2' :
   contract C -> Inv C st0 -> Inv C st1 -> Inv C st2 ->
   m_raw m = None \/ m_raw m = Some [] ->
   supported (lower (coding_of m)) = true ->
@@ -262,20 +263,21 @@ Proof.
   { unfold msg_decode in D. destruct Hraw as [Hr | Hr]; rewrite Hr in D; injection D as <- <- _; auto. }
   destruct D' as [-> ->]. unfold msg_encode in E.
   destruct Hraw as [Hr | Hr]; rewrite Hr in E.
-  - cbn [set_content m_ce] in E. injection E as <- <- _.
-    assert (g = GNone). { unfold get_content in G0. rewrite Hr in G0. cbn in G0. auto. }
-    subst g. repeat split; try reflexivity. intros st3 s3 _. reflexivity.
-  - assert (g = GBytes []).
-    { rewrite <- G0. destruct (pure_roundtrip C (lower (coding_of m)) s_strict s_strict [] K Sm) as (e & _ & _).
+  - cbn [set_content m_ce] in E. injection E as <- <- _. subst g.
+    repeat split; try reflexivity. intros st3 s3 _.
+    unfold get_content. cbn [m_raw]. rewrite Hr. reflexivity.
+  - assert (G : g = GBytes []).
+    { rewrite <- G0.
       apply get_content_of_valid with (e := []); try assumption.
       clear - Sm. unfold pure_decode. apply supported_cases in Sm.
       destruct Sm as [H | [H | H]]; [rewrite H; reflexivity | rewrite H; reflexivity |].
       apply cached_cases in H. destruct H as [H | [H | [H | [H | H]]]]; rewrite H; reflexivity. }
-    subst g.
-    set (me := Build_msg (Some n) (m_te m) (m_cl m) (Some [])) in E.
+    clear G0. subst g.
+    pose (me := Build_msg (Some n) (m_te m) (m_cl m) (Some [])).
     assert (Se : supported (lower (coding_of me)) = true).
     { unfold coding_of, me. cbn [m_ce]. destruct n; exact S. }
-    destruct (set_content C lenient st2 me (Some [])) as [[o m2a] st2a] eqn:E2.
+    match type of E with context [set_content ?a1 ?a2 ?a3 ?a4 ?a5] =>
+      destruct (set_content a1 a2 a3 a4 a5) as [[o m2a] st2a] eqn:E2 end.
     destruct (set_get_roundtrip st2 me [] o m2a st2a K I2 Se E2) as (Ho2 & Hce2 & _ & _ & G2).
     subst o. cbn [m_ce me] in Hce2. rewrite Hce2 in E. injection E as <- <- _.
     repeat split; try assumption; try reflexivity.
